@@ -15,16 +15,30 @@ import (
 const haveInternals = true
 
 func (x *Ctx) internalPrefix(s, p []byte) {
+	defer x.recoverInternal("internalPrefix")
 	m1, e1 := strcase.VerifHasPrefixUnicode(string(s), string(p))
 	m2, e2 := bytcase.VerifHasPrefixUnicode(s, p)
 	x.rawPair(fmt.Sprintf("i.hasPrefixUnicode\t%s\t%s", hexOrDash(s), hexOrDash(p)), b2s(m1)+":"+b2s(e1), b2s(m2)+":"+b2s(e2))
 	x.rawPair(fmt.Sprintf("i.containsKelvin\t%s", hexOrDash(p)), b2s(strcase.VerifContainsKelvin(string(p))), b2s(bytcase.VerifContainsKelvin(p)))
 }
 
+// recoverInternal: an unexported strategy that panics on an input its callers may never pass is a diagnostic of the
+// correspondence with the structure-faithful model, not a verdict (the exported functions are observed with their own
+// recover and ARE the verdict); the harness must survive it
+func (x *Ctx) recoverInternal(which string) {
+	if r := recover(); r != nil {
+		x.internalPanics++
+		if x.internalPanics <= 3 {
+			x.st.Notes = append(x.st.Notes, fmt.Sprintf("unexported strategy panicked in %s: %v", which, r))
+		}
+	}
+}
+
 func pairStr(i, sz int) string { return itoa(i) + ":" + itoa(sz) }
 
 // internalRune: the unexported single-character strategies on (s, r)
 func (x *Ctx) internalRune(s []byte, r int64) {
+	defer x.recoverInternal("internalRune")
 	if r < -2147483648 || r > 2147483647 {
 		return
 	}
@@ -46,6 +60,7 @@ func (x *Ctx) internalRune(s []byte, r int64) {
 }
 
 func (x *Ctx) internalByte(s []byte, c int64) {
+	defer x.recoverInternal("internalByte")
 	if c < 0 || c > 255 {
 		return
 	}
@@ -62,6 +77,7 @@ func (x *Ctx) internalByte(s []byte, c int64) {
 
 // internalIndex: the unexported search strategies on (s, sub); sub needs at least two code points
 func (x *Ctx) internalIndex(s, sub []byte) {
+	defer x.recoverInternal("internalIndex")
 	if len(segsOf(sub)) < 2 {
 		return
 	}
